@@ -32,6 +32,7 @@ import (
 	"os/exec"
 	"path"
 	"path/filepath"
+	"regexp"
 	"sort"
 	"strconv"
 	"strings"
@@ -44,9 +45,116 @@ import (
 )
 
 type c20Op struct {
-	K string `json:"k"`           // wh | w | p
-	N int    `json:"n,omitempty"` // status / length
-	F *int   `json:"f,omitempty"` // w: the underlying writer reports F bytes and an error (log kind only)
+	// wh: WriteHeader(N) | p: panic | body-producing calls: w: Write(N bytes) | ws: io.WriteString(N bytes) |
+	// cp: io.Copy from a reader that yields N bytes | cpn: io.CopyN(w, reader with N bytes, L) |
+	// rf: w.(io.ReaderFrom).ReadFrom(reader with N bytes) if the writer offers it, io.Copy otherwise
+	K string `json:"k"`
+	N int    `json:"n,omitempty"`
+	L int    `json:"l,omitempty"`
+	E bool   `json:"e,omitempty"` // cp / cpn / rf: after its N bytes the reader FAILS (instead of io.EOF)
+	// log kind only: the scripted writer accepts just the first F (< offered) bytes of this call and
+	// reports an error (on a live site such cuts come from the client closing the connection: Abort)
+	F *int `json:"f,omitempty"`
+}
+
+// what a body-producing call reported to the handler
+type c20Out struct {
+	N   int64 `json:"n"`
+	Err bool  `json:"err,omitempty"`
+}
+
+func (o c20Op) body() bool { return o.K != "wh" && o.K != "p" }
+
+// offered: the bytes the call offers to the writer; srcerr: the source of a copy reports an error
+func (o c20Op) offered() (n int, srcerr bool) {
+	switch o.K {
+	case "cpn":
+		if o.N < o.L {
+			return o.N, true // short source: io.CopyN reports io.EOF (or the reader's failure)
+		}
+		return o.L, false
+	case "cp", "rf":
+		return o.N, o.E
+	}
+	return o.N, false
+}
+
+// a reader that yields n bytes and then ends or fails; no WriteTo, so io.Copy has to look at the writer
+type c20Src struct {
+	remain int
+	fail   bool
+}
+
+func (s *c20Src) Read(p []byte) (int, error) {
+	if s.remain == 0 {
+		if s.fail {
+			return 0, errors.New("c20: source failed")
+		}
+		return 0, io.EOF
+	}
+	n := len(p)
+	if n > s.remain {
+		n = s.remain
+	}
+	for i := 0; i < n; i++ {
+		p[i] = 'x'
+	}
+	s.remain -= n
+	return n, nil
+}
+
+var c20BigOnce sync.Once
+var c20BigBuf []byte
+
+func c20Bytes(n int) []byte {
+	if n <= 1<<16 {
+		return bytes.Repeat([]byte{'x'}, n)
+	}
+	c20BigOnce.Do(func() { c20BigBuf = bytes.Repeat([]byte{'x'}, 8<<20) })
+	if n <= len(c20BigBuf) {
+		return c20BigBuf[:n]
+	}
+	return bytes.Repeat([]byte{'x'}, n)
+}
+
+// c20Exec runs a handler script on the writer the handler was given; before is called ahead of every
+// body-producing call; outs receives what each of them reported
+func c20Exec(w http.ResponseWriter, ops []c20Op, before func(o c20Op), outs *[]c20Out) {
+	for _, o := range ops {
+		if o.body() && before != nil {
+			before(o)
+		}
+		var n int64
+		var err error
+		switch o.K {
+		case "wh":
+			w.WriteHeader(o.N)
+			continue
+		case "p":
+			panic("c20 scripted panic")
+		case "w":
+			var k int
+			k, err = w.Write(c20Bytes(o.N))
+			n = int64(k)
+		case "ws":
+			var k int
+			k, err = io.WriteString(w, string(c20Bytes(o.N)))
+			n = int64(k)
+		case "cp":
+			n, err = io.Copy(w, &c20Src{remain: o.N, fail: o.E})
+		case "cpn":
+			n, err = io.CopyN(w, &c20Src{remain: o.N, fail: o.E}, int64(o.L))
+		case "rf":
+			if rf, ok := w.(io.ReaderFrom); ok {
+				n, err = rf.ReadFrom(&c20Src{remain: o.N, fail: o.E})
+			} else {
+				n, err = io.Copy(w, &c20Src{remain: o.N, fail: o.E})
+			}
+		}
+		if outs != nil {
+			*outs = append(*outs, c20Out{N: n, Err: err != nil})
+		}
+	}
 }
 type c20Dir struct {
 	Scope  string   `json:"scope"`
@@ -98,8 +206,19 @@ type c20In struct {
 	// the scripted handler sets r.URL.Path to this value before it answers, as inner middleware
 	// (rewrite, ext, ...) does in place; scope and exceptions are owed on the REQUESTED path
 	Rewrite string `json:"rewrite,omitempty"`
+	// log kind: the scripted writer below the recorder offers io.ReaderFrom (as net/http's does)
+	RFW bool `json:"rfw,omitempty"`
+	// site kind: the client reads Abort bytes of the response and then resets the connection while the
+	// handler is still writing (0 = it reads the response to its end)
+	Abort int `json:"abort,omitempty"`
+	// site / burst: the probe sets Req.Custom through the replacer, as proxy sets {upstream}: "rr" = the
+	// Replacer field of the ResponseRecorder it was given (when it was given one), "ctx" = a replacer made
+	// from the request (NewReplacer takes the per-request map from the request's context)
+	Via string `json:"via,omitempty"`
 
 	Burst []*c20In `json:"burst,omitempty"`
+
+	abortOuts []c20Out // what the body calls reported after the client reset the connection (set by the runner)
 }
 
 // ---------------------------------------------------------------------------------------------
@@ -119,18 +238,33 @@ func c20Hdrs(hs []c20Hdr) string {
 	}
 	return cList(it)
 }
-func c20OpsTerm(ops []c20Op) string {
+// c20OpsTerm: cuts = nil: the cuts are those scripted in the ops (F); otherwise what the body calls
+// reported on a connection the client reset
+func c20OpsTerm(ops []c20Op, outs []c20Out) string {
 	it := make([]string, len(ops))
+	bi := 0
 	for i, o := range ops {
-		switch o.K {
-		case "wh":
+		switch {
+		case o.K == "wh":
 			it[i] = cApp("OWH", cZ(int64(o.N)))
-		case "w":
-			f := "None"
-			if o.F != nil {
-				f = "(Some " + cN(uint64(*o.F)) + ")"
+		case o.body():
+			n, se := o.offered()
+			kind := "BCopy"
+			if o.K == "w" || o.K == "ws" {
+				kind = "BWrite"
 			}
-			it[i] = cApp("OW", cN(uint64(o.N)), f)
+			f := "None"
+			if outs == nil {
+				if o.F != nil {
+					f = "(Some " + cN(uint64(*o.F)) + ")"
+				}
+			} else if bi < len(outs) {
+				if outs[bi].Err {
+					f = "(Some " + cN(uint64(outs[bi].N)) + ")"
+				}
+				bi++
+			}
+			it[i] = cApp("OB", kind, cN(uint64(n)), cBool(se), f)
 		default:
 			it[i] = "OPanic"
 		}
@@ -273,9 +407,15 @@ func c20EnvTerm(q *c20Req, remote, remotePort string, format string) string {
 			defs = append(defs, d)
 		}
 	}
+	rec := "None"
+	if q.HasRec {
+		rec = "(Some (" + cZ(int64(q.RecStatus)) + ", " + cN(uint64(q.RecSize)) + "))"
+	}
 	return "{| e_custom := " + c20Pairs(custom) + "; e_reqh := " + c20Hdrs(q.Headers) + "; e_resph := " + resp +
 		"; e_cookies := " + c20Pairs(q.Cookies) + "; e_query := " + c20Pairs(q.Query) + "; e_osenv := " + c20Pairs(c20OSEnv) +
-		"; e_defaults := " + c20Pairs(defs) + "; e_host := " + cStr(q.Host) + "; e_empty := " + cStr(q.Empty) + " |}"
+		"; e_defaults := " + c20Pairs(defs) + "; e_host := " + cStr(q.Host) + "; e_empty := " + cStr(q.Empty) +
+		"; e_method := " + cStr(q.Method) + "; e_path := " + cStr(q.OrigPath) + "; e_curpath := " + cStr(q.Path) +
+		"; e_rawquery := " + cStr(c20EncodeQuery(q.Query)) + "; e_proto := " + cStr("HTTP/1.1") + "; e_rec := " + rec + " |}"
 }
 
 func c20Try(f func()) (panicked bool, msg string) {
@@ -420,8 +560,8 @@ func c20Simple(s string) bool {
 type c20W struct {
 	hdr       http.Header
 	status    int
-	delivered int
-	nextFail  int
+	delivered int // bytes accepted (reported as written), those of failing calls included
+	cut       int // >= 0: this many more bytes are accepted during the current body call, then Write fails
 }
 
 func (w *c20W) Header() http.Header { return w.hdr }
@@ -434,13 +574,41 @@ func (w *c20W) Write(b []byte) (int, error) {
 	if w.status == 0 {
 		w.status = 200
 	}
-	if w.nextFail >= 0 {
-		k := w.nextFail
-		w.nextFail = -1
+	if w.cut >= 0 && len(b) > w.cut {
+		k := w.cut
+		w.cut = 0
+		w.delivered += k
 		return k, errors.New("c20: write failed")
+	}
+	if w.cut >= 0 {
+		w.cut -= len(b)
 	}
 	w.delivered += len(b)
 	return len(b), nil
+}
+
+// the same writer offering io.ReaderFrom, as net/http's response does
+type c20WRF struct{ *c20W }
+
+func (w c20WRF) ReadFrom(src io.Reader) (int64, error) {
+	buf := make([]byte, 32768)
+	var total int64
+	for {
+		n, er := src.Read(buf)
+		if n > 0 {
+			m, ew := w.c20W.Write(buf[:n])
+			total += int64(m)
+			if ew != nil {
+				return total, ew
+			}
+		}
+		if er == io.EOF {
+			return total, nil
+		}
+		if er != nil {
+			return total, er
+		}
+	}
 }
 
 func c20Matches(p, base string) bool { return httpserver.Path(p).Matches(base) }
@@ -456,10 +624,10 @@ func c20WellBehaved(ops []c20Op, ret int) bool {
 				return false
 			}
 			whs++
-		case "w":
-			wrote = true
 		case "p":
 			panics = true
+		default:
+			wrote = true
 		}
 		if panics {
 			break
@@ -470,6 +638,67 @@ func c20WellBehaved(ops []c20Op, ret int) bool {
 	}
 	return true
 }
+// c20CutShort: some body call was cut short by the writer AFTER it had accepted bytes that the recorder
+// then does not count: a Write / WriteString that accepted F > 0 bytes, a copy cut inside a chunk
+// (outs: what the calls reported on a connection the client reset; nil: the scripted cuts)
+func c20CutShort(ops []c20Op, outs []c20Out) bool {
+	bi := 0
+	for _, o := range ops {
+		if o.K == "p" {
+			break
+		}
+		if !o.body() {
+			continue
+		}
+		k := -1
+		if outs == nil {
+			if o.F != nil {
+				k = *o.F
+			}
+		} else if bi < len(outs) {
+			if outs[bi].Err {
+				k = int(outs[bi].N)
+			}
+			bi++
+		}
+		if k > 0 && (o.K == "w" || o.K == "ws" || k%32768 != 0) {
+			return true
+		}
+	}
+	return false
+}
+
+// c20BodyClass: how the script produces its body (for the histogram)
+func c20BodyClass(ops []c20Op) string {
+	seen := map[string]bool{}
+	srcerr, cut := false, false
+	for _, o := range ops {
+		if o.body() {
+			seen[o.K] = true
+			if _, se := o.offered(); se {
+				srcerr = true
+			}
+			cut = cut || o.F != nil
+		}
+	}
+	var ks []string
+	for k := range seen {
+		ks = append(ks, k)
+	}
+	sort.Strings(ks)
+	c := strings.Join(ks, "+")
+	if c == "" {
+		c = "none"
+	}
+	if srcerr {
+		c += ":srcfail"
+	}
+	if cut {
+		c += ":cut"
+	}
+	return c
+}
+
 func c20Panics(ops []c20Op) bool {
 	for _, o := range ops {
 		if o.K == "p" {
@@ -497,28 +726,25 @@ func c20RunLog(in *c20In) Result {
 		}
 		rules = append(rules, rule)
 	}
-	cw := &c20W{hdr: http.Header{}, nextFail: -1}
+	cw := &c20W{hdr: http.Header{}, cut: -1}
+	var outs []c20Out
 	inner := handlerFunc(func(w http.ResponseWriter, r *http.Request) (int, error) {
 		if in.Rewrite != "" {
 			r.URL.Path = in.Rewrite
 		}
-		for _, o := range in.Ops {
-			switch o.K {
-			case "wh":
-				w.WriteHeader(o.N)
-			case "w":
-				cw.nextFail = -1
-				if o.F != nil {
-					cw.nextFail = *o.F
-				}
-				w.Write(make([]byte, o.N))
-				cw.nextFail = -1
-			case "p":
-				panic("c20 scripted panic")
+		defer func() { cw.cut = -1 }()
+		c20Exec(w, in.Ops, func(o c20Op) {
+			cw.cut = -1
+			if o.F != nil {
+				cw.cut = *o.F
 			}
-		}
+		}, &outs)
 		return in.Ret, nil
 	})
+	var under http.ResponseWriter = cw
+	if in.RFW {
+		under = c20WRF{cw}
+	}
 	lg := cklog.Logger{Next: inner, Rules: rules}
 	if in.EK == 1 {
 		lg.ErrorFunc = httpserver.DefaultErrorFunc
@@ -528,7 +754,7 @@ func c20RunLog(in *c20In) Result {
 	ret := 0
 	var p bool
 	var msg string
-	if !c20Watch(10*time.Second, func() { p, msg = c20Try(func() { ret, _ = lg.ServeHTTP(cw, req) }) }) {
+	if !c20Watch(10*time.Second, func() { p, msg = c20Try(func() { ret, _ = lg.ServeHTTP(under, req) }) }) {
 		return Result{Term: "(CBurst [])", Obs: "log.Logger.ServeHTTP did not return within 10 s", Sig: "log:hang", Class: "log:hang",
 			Direct: "log.Logger.ServeHTTP did not terminate (10 s watchdog)"}
 	}
@@ -553,7 +779,7 @@ func c20RunLog(in *c20In) Result {
 			lines = append(lines, c20Line{ID: i, Status: st, Size: sz})
 		}
 	}
-	term := cApp("CLog", cBool(in.CS), c20RulesTerm(in.Rules), cN(uint64(in.EK)), cStr(in.Path), c20OpsTerm(in.Ops),
+	term := cApp("CLog", cBool(in.CS), c20RulesTerm(in.Rules), cN(uint64(in.EK)), cStr(in.Path), c20OpsTerm(in.Ops, nil),
 		cZ(int64(in.Ret)), c20Tbl(in.Ret, 500), c20LinesTerm(lines), cZ(int64(cw.status)), cN(uint64(cw.delivered)),
 		cZ(int64(ret)), cBool(p))
 	// class of the input
@@ -567,6 +793,8 @@ func c20RunLog(in *c20In) Result {
 	}
 	sig := "log:clean"
 	switch {
+	case c20CutShort(in.Ops, nil) && inScope > 0:
+		sig = "write-cut-short"
 	case c20Panics(in.Ops) && inScope > 0:
 		sig = "panic-without-errors-directive"
 	case len(scopes) > 1:
@@ -575,8 +803,8 @@ func c20RunLog(in *c20In) Result {
 		sig = "handler-writes-after-commit"
 	}
 	res := Result{Term: term, Obs: map[string]interface{}{"lines": lines, "writer_status": cw.status, "delivered": cw.delivered,
-		"ret": ret, "panic": msg}, Sig: sig, Nontrivial: inScope > 0,
-		Class: fmt.Sprintf("%s:inscope=%v:panic=%v:rewritten=%v", sig, inScope > 0, p, in.Rewrite != "")}
+		"ret": ret, "panic": msg, "calls": outs}, Sig: sig, Nontrivial: inScope > 0,
+		Class: fmt.Sprintf("%s:inscope=%v:panic=%v:rewritten=%v:body=%s", sig, inScope > 0, p, in.Rewrite != "", c20BodyClass(in.Ops))}
 	if bad != "" {
 		res.Direct = "unparsable log line: " + bad
 	}
@@ -590,6 +818,17 @@ type c20Script struct {
 	ops     []c20Op
 	ret     int
 	rewrite string
+	custom  [][2]string
+	via     string
+	res     *c20ProbeRes
+}
+
+// what the probe saw: the counts and errors its body calls reported, and how it set the custom placeholders
+type c20ProbeRes struct {
+	mu    sync.Mutex
+	Outs  []c20Out `json:"calls,omitempty"`
+	SetBy string   `json:"set_by,omitempty"`
+	done  chan struct{}
 }
 
 var c20Scripts sync.Map // id -> c20Script
@@ -605,17 +844,45 @@ func (p c20Probe) ServeHTTP(w http.ResponseWriter, r *http.Request) (int, error)
 	if sc.rewrite != "" {
 		r.URL.Path = sc.rewrite
 	}
-	for _, o := range sc.ops {
-		switch o.K {
-		case "wh":
-			w.WriteHeader(o.N)
-		case "w":
-			w.Write(bytes.Repeat([]byte{'x'}, o.N))
-		case "p":
-			panic("c20 scripted panic")
+	if len(sc.custom) > 0 {
+		// like proxy's {upstream}: through the recorder's Replacer when the writer is the recorder,
+		// else (or when asked to) through a replacer made from the request: both reach the
+		// per-request map held in the request's context
+		var rep httpserver.Replacer
+		by := "ctx"
+		if rr, ok := w.(*httpserver.ResponseRecorder); ok && rr.Replacer != nil && sc.via == "rr" {
+			rep, by = rr.Replacer, "rr"
+		} else {
+			rep = httpserver.NewReplacer(r, nil, "")
+		}
+		for _, c := range sc.custom {
+			rep.Set(c[0], c[1])
+		}
+		sc.res.mu.Lock()
+		sc.res.SetBy = by
+		sc.res.mu.Unlock()
+	}
+	var outs []c20Out
+	defer func() {
+		sc.res.mu.Lock()
+		sc.res.Outs = outs
+		sc.res.mu.Unlock()
+	}()
+	c20Exec(w, sc.ops, nil, &outs)
+	return sc.ret, nil
+}
+
+// c20Outer sits in front of the log middleware: it tells the harness when the whole chain below it has
+// returned (the log lines are written by then), which a client that reset the connection cannot see
+type c20Outer struct{ next httpserver.Handler }
+
+func (o c20Outer) ServeHTTP(w http.ResponseWriter, r *http.Request) (int, error) {
+	if v, ok := c20Scripts.Load(r.Header.Get("X-C20-Id")); ok {
+		if sc := v.(c20Script); sc.res != nil && sc.res.done != nil {
+			defer close(sc.res.done)
 		}
 	}
-	return sc.ret, nil
+	return o.next.ServeHTTP(w, r)
 }
 
 var c20Registered bool
@@ -632,6 +899,90 @@ func c20Register() {
 		httpserver.GetConfig(c).AddMiddleware(func(next httpserver.Handler) httpserver.Handler { return c20Probe{next} })
 		return nil
 	}})
+	httpserver.RegisterDevDirective("c20outer", "log")
+	casket.RegisterPlugin("c20outer", casket.Plugin{ServerType: "http", Action: func(c *casket.Controller) error {
+		for c.Next() {
+		}
+		httpserver.GetConfig(c).AddMiddleware(func(next httpserver.Handler) httpserver.Handler { return c20Outer{next} })
+		return nil
+	}})
+}
+
+// c20AbortRaw sends the request, reads n bytes of the response and resets the connection. It returns the
+// status (0 if the status line was not complete) and the number of BODY bytes among what it read.
+func c20AbortRaw(addr, method, target string, hdr map[string]string, n int) (status int, body int, errs string) {
+	conn, err := net.DialTimeout("tcp", addr, 2*time.Second)
+	if err != nil {
+		return 0, 0, err.Error()
+	}
+	conn.SetDeadline(time.Now().Add(5 * time.Second))
+	var sb bytes.Buffer
+	fmt.Fprintf(&sb, "%s %s HTTP/1.1\r\nHost: %s\r\n", method, target, addr)
+	keys := make([]string, 0, len(hdr))
+	for k := range hdr {
+		keys = append(keys, k)
+	}
+	sort.Strings(keys)
+	for _, k := range keys {
+		fmt.Fprintf(&sb, "%s: %s\r\n", k, hdr[k])
+	}
+	sb.WriteString("Connection: close\r\n\r\n")
+	if _, err := conn.Write(sb.Bytes()); err != nil {
+		conn.Close()
+		return 0, 0, err.Error()
+	}
+	buf := make([]byte, n)
+	got, _ := io.ReadFull(conn, buf)
+	if tc, ok := conn.(*net.TCPConn); ok {
+		tc.SetLinger(0)
+	}
+	conn.Close()
+	status, body = c20PartialBody(buf[:got])
+	return status, body, ""
+}
+
+// c20PartialBody decodes the beginning of an HTTP/1.1 response: the status, and how many body bytes
+// (after de-chunking) are among the bytes at hand.
+func c20PartialBody(b []byte) (status int, body int) {
+	he := bytes.Index(b, []byte("\r\n\r\n"))
+	le := bytes.Index(b, []byte("\r\n"))
+	if le > 0 {
+		f := strings.SplitN(string(b[:le]), " ", 3)
+		if len(f) >= 2 {
+			status, _ = strconv.Atoi(f[1])
+		}
+	}
+	if he < 0 {
+		return status, 0
+	}
+	head := strings.ToLower(string(b[:he]))
+	rest := b[he+4:]
+	if !strings.Contains(head, "transfer-encoding: chunked") {
+		return status, len(rest)
+	}
+	for len(rest) > 0 {
+		e := bytes.Index(rest, []byte("\r\n"))
+		if e < 0 {
+			break
+		}
+		sz, err := strconv.ParseInt(strings.TrimSpace(string(rest[:e])), 16, 64)
+		if err != nil || sz == 0 {
+			break
+		}
+		rest = rest[e+2:]
+		if int64(len(rest)) <= sz {
+			body += len(rest)
+			break
+		}
+		body += int(sz)
+		rest = rest[sz:]
+		if len(rest) >= 2 {
+			rest = rest[2:]
+		} else {
+			break
+		}
+	}
+	return status, body
 }
 
 type c20LiveSite struct {
@@ -703,7 +1054,7 @@ func c20Site(in *c20In) (*c20LiveSite, error) {
 		os.WriteFile(filepath.Join(dir, "a", "b.html"), []byte("b"), 0o644)
 		sb.WriteString("ext .html\n")
 	}
-	sb.WriteString("c20probe\n")
+	sb.WriteString("c20probe\nc20outer\n")
 	casket.Quiet = true
 	text := "127.0.0.1:0 {\n" + sb.String() + "}\n"
 	inst, err := casket.Start(casket.CasketfileInput{Contents: []byte(text), Filepath: "Casketfile", ServerTypeName: "http"})
@@ -747,6 +1098,17 @@ type c20SiteObs struct {
 	Err    string    `json:"err,omitempty"`
 	Lines  []c20Line `json:"lines"`
 	Bad    string    `json:"bad,omitempty"`
+	// what the probe's body calls reported (count, error) and how it set the custom placeholders
+	Calls []c20Out `json:"calls,omitempty"`
+	SetBy string   `json:"set_by,omitempty"`
+}
+
+func c20Acc(outs []c20Out) uint64 {
+	var t uint64
+	for _, o := range outs {
+		t += uint64(o.N)
+	}
+	return t
 }
 
 func c20SiteHeaders(in *c20In, id string) map[string]string {
@@ -860,6 +1222,8 @@ func c20SiteSig(in *c20In) string {
 		}
 	}
 	switch {
+	case in.Abort > 0 && inScope && c20CutShort(in.Ops, in.abortOuts):
+		return "write-cut-short"
 	case c20Panics(in.Ops) && !in.HasErr && inScope:
 		return "panic-without-errors-directive"
 	case in.Head:
@@ -890,8 +1254,15 @@ func c20SiteTerm(in *c20In, addr string, o c20SiteObs) string {
 	for i, l := range o.Lines {
 		tails[i] = l.Tail
 	}
-	return cApp("CSite", cBool(in.Wrap != "gzip"), cBool(in.HasErr), cBool(in.Wrap == "header"), cBool(in.Head), c20DirsTerm(in.Dirs), cStr(in.Path), c20OpsTerm(in.Ops),
-		cZ(int64(in.Ret)), c20Tbl(in.Ret, 500), cZ(int64(o.Status)), cN(uint64(o.Size)), c20LinesTerm(o.Lines),
+	var cuts []c20Out
+	if in.Abort > 0 {
+		cuts = o.Calls
+		if cuts == nil {
+			cuts = []c20Out{}
+		}
+	}
+	return cApp("CSite", cBool(in.Wrap != "gzip"), cBool(in.HasErr), cBool(in.Wrap == "header"), cBool(in.Head), c20DirsTerm(in.Dirs), cStr(in.Path), c20OpsTerm(in.Ops, cuts),
+		cZ(int64(in.Ret)), c20Tbl(in.Ret, 500), cBool(in.Abort > 0), cN(c20Acc(o.Calls)), cZ(int64(o.Status)), cN(uint64(o.Size)), c20LinesTerm(o.Lines),
 		cStr("|"+in.Tail), c20EnvTerm(&q, "127.0.0.1", "", in.Tail), cStrList(tails))
 }
 
@@ -903,11 +1274,33 @@ func c20RunSite(in *c20In) Result {
 	}
 	c20ReqNo++
 	id := fmt.Sprintf("r%d", c20ReqNo)
-	c20Scripts.Store(id, c20Script{in.Ops, in.Ret, in.Rewrite})
+	pr := &c20ProbeRes{}
+	if in.Abort > 0 {
+		pr.done = make(chan struct{})
+	}
+	c20Scripts.Store(id, c20Script{in.Ops, in.Ret, in.Rewrite, in.Req.Custom, in.Via, pr})
 	defer c20Scripts.Delete(id)
-	rr := doRaw(s.addr, c20Method(in), c20Target(in), c20SiteHeaders(in, id), nil)
+	var o c20SiteObs
+	if in.Abort > 0 {
+		st, body, e := c20AbortRaw(s.addr, c20Method(in), c20Target(in), c20SiteHeaders(in, id), in.Abort)
+		o = c20SiteObs{Status: st, Size: body, Err: e}
+		if e == "" {
+			select {
+			case <-pr.done:
+			case <-time.After(20 * time.Second):
+				o.Err = "the handler chain did not return within 20 s of the client's reset"
+			}
+		}
+	} else {
+		rr := doRaw(s.addr, c20Method(in), c20Target(in), c20SiteHeaders(in, id), nil)
+		o = c20SiteObs{Status: rr.Status, Size: len(rr.Body), Err: rr.Err}
+	}
 	by, bad := c20Collect(s, len(in.Dirs))
-	o := c20SiteObs{Status: rr.Status, Size: len(rr.Body), Err: rr.Err, Lines: by[id], Bad: bad}
+	o.Lines, o.Bad = by[id], bad
+	pr.mu.Lock()
+	o.Calls, o.SetBy = pr.Outs, pr.SetBy
+	pr.mu.Unlock()
+	in.abortOuts = o.Calls
 	for k := range by {
 		if k != id {
 			o.Bad = "line of another request: " + k
@@ -919,9 +1312,10 @@ func c20RunSite(in *c20In) Result {
 		inScope = inScope || c20Matches(in.Path, d.Scope)
 	}
 	res := Result{Term: c20SiteTerm(in, s.addr, o), Obs: o, Sig: sig, Nontrivial: inScope,
-		Class: fmt.Sprintf("%s:errors=%v:wrap=%s:rewritten=%v", sig, in.HasErr, in.Wrap, c20Cur(in) != in.Path)}
-	if rr.Err != "" {
-		res.Direct = "no response: " + rr.Err
+		Class: fmt.Sprintf("%s:errors=%v:wrap=%s:rewritten=%v:body=%s:abort=%v:custom=%s", sig, in.HasErr, in.Wrap, c20Cur(in) != in.Path,
+			c20BodyClass(in.Ops), in.Abort > 0, o.SetBy)}
+	if o.Err != "" {
+		res.Direct = "no response: " + o.Err
 	} else if o.Bad != "" {
 		res.Direct = "unexpected log line: " + o.Bad
 	}
@@ -940,10 +1334,12 @@ func c20RunBurst(in *c20In) Result {
 	}
 	ids := make([]string, len(in.Burst))
 	resps := make([]rawResp, len(in.Burst))
+	prs := make([]*c20ProbeRes, len(in.Burst))
 	for i, b := range in.Burst {
 		c20ReqNo++
 		ids[i] = fmt.Sprintf("b%d", c20ReqNo)
-		c20Scripts.Store(ids[i], c20Script{b.Ops, b.Ret, b.Rewrite})
+		prs[i] = &c20ProbeRes{}
+		c20Scripts.Store(ids[i], c20Script{b.Ops, b.Ret, b.Rewrite, b.Req.Custom, b.Via, prs[i]})
 	}
 	var wg sync.WaitGroup
 	start := make(chan struct{})
@@ -974,6 +1370,9 @@ func c20RunBurst(in *c20In) Result {
 	for i, b := range in.Burst {
 		b.Dirs, b.HasErr, b.Tail, b.Wrap = first.Dirs, first.HasErr, first.Tail, first.Wrap
 		o := c20SiteObs{Status: resps[i].Status, Size: len(resps[i].Body), Err: resps[i].Err, Lines: by[ids[i]]}
+		prs[i].mu.Lock()
+		o.Calls, o.SetBy = prs[i].Outs, prs[i].SetBy
+		prs[i].mu.Unlock()
 		sort.SliceStable(o.Lines, func(a, c int) bool { return o.Lines[a].ID < o.Lines[c].ID })
 		if resps[i].Err != "" {
 			direct = "no response: " + resps[i].Err
@@ -1302,7 +1701,7 @@ var c20Scopes = []string{"/", "/a", "/a/", "/a/b", "/ab", "/A", "/c", "/a/b/c", 
 var c20Excepts = []string{"/a/b", "/a", "/x", "/a/b/c", "/ab/", "/a/bc", "/A/B", "/c/", "/"}
 var c20Paths = []string{"/", "/a", "/a/", "/a/b", "/a/bc", "/a/b/c", "/a/b/c/d", "/ab", "/abc/d", "/A/B", "/x", "/x/y", "/c", "/c/",
 	"//a//b", "/a/b/", "/aB", "/a.b", "/b/a"}
-var c20Sizes = []int{0, 1, 2, 13, 14, 15, 26, 100, 4095, 4096, 4097, 70000}
+var c20Sizes = []int{0, 1, 2, 13, 14, 15, 26, 100, 4095, 4096, 4097, 70000, 32768, 32769, 65536, 100000}
 var c20Rets = []int{0, 0, 0, 200, 302, 399, 400, 401, 403, 404, 404, 499, 500, 503, 599}
 
 func c20GenOps(r *Rand, level string) ([]c20Op, int) {
@@ -1315,8 +1714,27 @@ func c20GenOps(r *Rand, level string) ([]c20Op, int) {
 	}
 	w := func() c20Op {
 		o := c20Op{K: "w", N: sz()}
-		if level == "log" && r.Chance(25) {
-			k := r.Intn(o.N + 1)
+		// how the body bytes reach the writer: Write, WriteString, io.Copy / io.CopyN from a reader that
+		// ends or FAILS after N bytes, ReadFrom if the writer offers it
+		switch x := r.Intn(100); {
+		case x < 50:
+		case x < 58:
+			o.K = "ws"
+		case x < 73:
+			o.K, o.E = "cp", r.Bool()
+		case x < 85:
+			o.K, o.E = "rf", r.Bool()
+		default:
+			o.K, o.L, o.E = "cpn", sz(), r.Chance(30)
+		}
+		if o.K != "w" && o.K != "ws" && r.Chance(30) {
+			o.N = c20Sizes[8+r.Intn(len(c20Sizes)-8)] // more than one chunk
+		}
+		if n, _ := o.offered(); level == "log" && n > 0 && r.Chance(25) {
+			k := r.Intn(n)
+			if n > 32768 && r.Chance(30) {
+				k = 32768 // a copy cut at a chunk boundary
+			}
 			o.F = &k
 		}
 		return o
@@ -1410,6 +1828,27 @@ var c20Tails = []string{
 	"}{>X-Evil}{",
 	"{rewrite_uri}|{uri_escaped}|{path_escaped}|{server_port}",
 	"[{>User-Agent}] [{>Referer}] {~ck}",
+	"{upstream}|{c20u}|{method}|{>X-Evil}",
+	"{c20u}\\{c20u\\}{upstream} {user}",
+}
+
+// the tails that show custom placeholders
+var c20CustomTails = []int{10, 11}
+
+var c20CustomNo int
+
+// c20GenCustom: placeholders the probe sets through the replacer, with values unique to the request
+// (and sometimes spelling placeholders themselves, or overriding a default / a header placeholder)
+func c20GenCustom(r *Rand) [][2]string {
+	c20CustomNo++
+	cs := [][2]string{{"upstream", fmt.Sprintf("up%d.%s", c20CustomNo, r.Pick(c20SiteEvil))}}
+	if r.Chance(70) {
+		cs = append(cs, [2]string{"c20u", fmt.Sprintf("u%d", c20CustomNo)})
+	}
+	if r.Chance(25) {
+		cs = append(cs, [2]string{r.Pick([]string{"method", ">X-Evil", "user", "upstream"}), fmt.Sprintf("o%d%s", c20CustomNo, r.Pick(c20SiteEvil))})
+	}
+	return cs
 }
 var c20SiteEvil = []string{"{status}", "{>X-Evil}", "{size}{status}", "\\{x\\}", "}{", "{", "}", "plain", "a{host}b", "{~ck}", "{?q}",
 	"{{method}}", "{>X-C20-Id}", "|{status}|{size}|"}
@@ -1448,6 +1887,12 @@ func c20GenSite(r *Rand) *c20In {
 	in := &c20In{Kind: "site", Dirs: c20GenDirs(r), HasErr: r.Chance(45), Head: r.Chance(8), Path: r.Pick(c20Paths),
 		Tail: c20Tails[r.Intn(len(c20Tails))], Req: c20GenSiteReq(r)}
 	in.Ops, in.Ret = c20GenOps(r, "site")
+	if r.Chance(30) {
+		in.Req.Custom, in.Via = c20GenCustom(r), r.Pick([]string{"rr", "ctx"})
+		if r.Chance(70) {
+			in.Tail = c20Tails[c20CustomTails[r.Intn(len(c20CustomTails))]]
+		}
+	}
 	if r.Chance(20) {
 		in.Wrap = r.Pick([]string{"gzip", "header"})
 	}
@@ -1473,10 +1918,40 @@ func c20GenSite(r *Rand) *c20In {
 	return in
 }
 
+// c20GenAbort: the client resets the connection while the handler is writing more than the socket
+// buffers hold; what the handler's Write calls report then is part of the observation
+func c20GenAbort(r *Rand) *c20In {
+	in := c20GenSite(r)
+	for in.Wrap != "" || c20Panics(in.Ops) {
+		in = c20GenSite(r)
+	}
+	in.Head, in.Rewrite = false, ""
+	for t := 0; t < 20 && r.Chance(85) && !c20Matches(in.Path, in.Dirs[0].Scope); t++ {
+		in.Path = r.Pick(c20Paths)
+	}
+	in.Ops = nil
+	if r.Chance(40) {
+		in.Ops = append(in.Ops, c20Op{K: "wh", N: 200})
+	}
+	// writes the socket buffers take whole, then more than they hold
+	for r.Chance(50) {
+		in.Ops = append(in.Ops, c20Op{K: r.Pick([]string{"w", "ws", "cp"}), N: []int{1, 4096, 100000, 300000}[r.Intn(4)]})
+	}
+	for i, n := 0, r.Range(3, 4); i < n; i++ {
+		in.Ops = append(in.Ops, c20Op{K: r.Pick([]string{"w", "w", "w", "ws"}), N: 8 << 20})
+	}
+	if r.Chance(50) {
+		in.Ops = append(in.Ops, c20Op{K: "w", N: 100})
+	}
+	in.Ret = c20Pick3(r, 0, 0, 404)
+	in.Abort = []int{1, 3000, 100000, 1000000}[r.Intn(4)]
+	return in
+}
+
 func c20Gen(r *Rand, tier string) []interface{} {
-	nRepl, nLog, nSite, nBurst, burstN := 500, 500, 320, 5, 16
+	nRepl, nLog, nSite, nBurst, burstN, nAbort := 500, 500, 320, 5, 16, 10
 	if tier == "thorough" {
-		nRepl, nLog, nSite, nBurst, burstN = 5000, 5000, 3200, 40, 32
+		nRepl, nLog, nSite, nBurst, burstN, nAbort = 5000, 5000, 3200, 40, 32, 80
 	}
 	var out []interface{}
 	// replacer: every placeholder of the menu alone and escaped, then structured and random formats
@@ -1499,7 +1974,7 @@ func c20Gen(r *Rand, tier string) []interface{} {
 	}
 	// the middleware over the scripted writer
 	for i := 0; i < nLog; i++ {
-		in := &c20In{Kind: "log", CS: r.Chance(25), EK: r.Intn(2), Path: r.Pick(c20Paths)}
+		in := &c20In{Kind: "log", CS: r.Chance(25), EK: r.Intn(2), Path: r.Pick(c20Paths), RFW: r.Bool()}
 		nr := 1
 		if r.Chance(30) {
 			nr = 2
@@ -1539,17 +2014,25 @@ func c20Gen(r *Rand, tier string) []interface{} {
 	for i := 0; i < nSite; i++ {
 		out = append(out, c20GenSite(r))
 	}
-	// concurrent bursts against one site
+	// the client resets the connection in mid-response
+	for i := 0; i < nAbort; i++ {
+		out = append(out, c20GenAbort(r))
+	}
+	// concurrent bursts against one site; every request sets custom placeholders with values of its own
 	for i := 0; i < nBurst; i++ {
 		first := c20GenSite(r)
 		for i%2 == 0 && !c20DirsClean(first.Dirs) {
 			first = c20GenSite(r)
 		}
 		first.Head = false
+		if i%4 != 3 {
+			first.Tail = c20Tails[c20CustomTails[r.Intn(len(c20CustomTails))]]
+		}
 		b := &c20In{Kind: "burst"}
 		for j := 0; j < burstN; j++ {
 			x := c20GenSite(r)
 			x.Dirs, x.HasErr, x.Tail, x.Head, x.Wrap = first.Dirs, first.HasErr, first.Tail, false, first.Wrap
+			x.Req.Custom, x.Via = c20GenCustom(r), r.Pick([]string{"rr", "ctx"})
 			if i%2 == 0 {
 				// clean bursts: well-behaved handlers only
 				for c20SiteSig(x) != "site:clean" {
@@ -1596,8 +2079,50 @@ func c20GenCoq(repo string) (string, error) {
 	if !found || len(vocab) == 0 {
 		return "", fmt.Errorf("getSubstitution's switch labels not found in replacer.go")
 	}
+	c20VocabNote(vocab)
 	return "(* replacer.getSubstitution: the `case \"{…}\"` labels of the default vocabulary *)\n" +
 		"Definition gen_c20_vocab : list bytes := " + cStrList(vocab) + ".\n", nil
+}
+
+// c20VocabNote prints (into the evidence's translator note) how the model treats each regenerated label:
+// computed by the model from the request (Fn) or an oracle value handed in. The classification is read
+// from the dispatch table in coq/C20_Model.v; that the table and the labels are the same set is the
+// kernel-checked theorem C20_vocabulary_is_dispatch_table, not this note.
+func c20VocabNote(vocab []string) {
+	root := os.Getenv("VERIF_ROOT")
+	if root == "" {
+		return
+	}
+	b, err := os.ReadFile(filepath.Join(root, "coq", "C20_Model.v"))
+	if err != nil {
+		return
+	}
+	re := regexp.MustCompile(`\(bs "(\{[a-z_0-9]+\})", (Fn|Oracle)`)
+	how := map[string]string{}
+	for _, m := range re.FindAllStringSubmatch(string(b), -1) {
+		how[m[1]] = m[2]
+	}
+	var fn, or, missing, extra []string
+	inVocab := map[string]bool{}
+	for _, l := range vocab {
+		inVocab[l] = true
+		switch how[l] {
+		case "Fn":
+			fn = append(fn, l)
+		case "Oracle":
+			or = append(or, l)
+		default:
+			missing = append(missing, l)
+		}
+	}
+	for l := range how {
+		if !inVocab[l] {
+			extra = append(extra, l)
+		}
+	}
+	sort.Strings(extra)
+	fmt.Printf("C20 vocabulary: %d labels in getSubstitution's switch; model dispatch table: %d computed by the model from the request %v, %d oracle values (Go stdlib on the generator's request, or not judged) %v; labels without a model entry %v; model entries without a label %v\n",
+		len(vocab), len(fn), fn, len(or), or, missing, extra)
 }
 
 func init() {
